@@ -383,6 +383,14 @@ class SymRange:
     def __eq__(self, o):
         return self is o
 
+    def __getitem__(self, i):
+        if i == 0:
+            return self.start
+        if i == -1:
+            n = self.stop - self.start - 1
+            return self.start + n // self.step * self.step
+        raise Concretized("indexing a symbolic range other than [0] / [-1]")
+
     def __contains__(self, x):
         return bool(b_and(x >= self.start, x < self.stop))
 
